@@ -25,6 +25,7 @@ func VerifDump(r *Router) string {
 	}
 	sort.Strings(keys)
 	var sb strings.Builder
+	sb.Grow(16 << 10)
 	for _, k := range keys {
 		p := strings.SplitN(k, "\x00", 2)
 		d := &verifDumper{seen: map[uintptr]int{}}
@@ -102,7 +103,21 @@ func (d *verifDumper) value(v reflect.Value, depth int) {
 			full = v.Slice(0, v.Cap())
 		}
 		if k := v.Type().Elem().Kind(); k == reflect.Int || k == reflect.Int32 || k == reflect.Int64 {
-			// fast path for the big integer tables (mycat segment arrays, rune buffers)
+			// big integer tables (mycat segment arrays): length, capacity and an FNV-1a hash
+			// of all elements up to the capacity instead of 1024 numbers
+			if full.Len() > 64 {
+				h := uint64(14695981039346656037)
+				for i := 0; i < full.Len(); i++ {
+					x := uint64(full.Index(i).Int())
+					for b := 0; b < 8; b++ {
+						h ^= x & 0xff
+						h *= 1099511628211
+						x >>= 8
+					}
+				}
+				fmt.Fprintf(&d.sb, "cap=%d fnv=%x]", full.Len(), h)
+				return
+			}
 			var buf []byte
 			for i := 0; i < full.Len(); i++ {
 				if i > 0 {
